@@ -4,6 +4,7 @@ import (
 	"go/constant"
 	"go/token"
 	"go/types"
+	"math"
 	"reflect"
 	"strings"
 
@@ -50,6 +51,8 @@ func NativeTable() *engine.NativeTable {
 			"go/constant.Val":           f(constant.Val),
 			"go/constant.Compare":       f(constant.Compare),
 			"go/token.NewFileSet":       f(token.NewFileSet),
+			"math.Max":                  f(math.Max),
+			"math.Min":                  f(math.Min),
 			"strings.Title":             f(strings.Title),
 			"strings.ToLower":           f(strings.ToLower),
 			"strings.ToUpper":           f(strings.ToUpper),
